@@ -6,13 +6,24 @@ from .arith import rng_of, T, MODES, _tag, all_pairs, _rand_fmt
 F = fractions.Fraction
 
 
+def _fits(np, v, numtype):
+    tp = getattr(np, numtype)
+    try:
+        if np.issubdtype(tp, np.integer):
+            return v.denominator == 1 and np.iinfo(tp).min <= v.numerator <= np.iinfo(tp).max
+        return F(float(tp(float(v)))) == v
+    except (OverflowError, ValueError):
+        return False
+
+
 def _c16_small(args):
     row, pid, tier, idx = args
     fx = common.import_fxpmath()
     import numpy as np
     tx, ty = T(row['x']), T(row['y'])
     cxs, cys = all_pairs(tx, ty)
-    out = [x_misc.observe_cmp(fx, np, [pid], tx, cxs, ty=ty, cys=cys)]
+    out = [x_misc.observe_cmp(fx, np, [pid], tx, cxs, ty=ty, cys=cys),
+           x_misc.observe_cmp(fx, np, [pid], tx, cxs, ty=ty, cys=cys, hist=['inplace', 'view', 'elementwise', 'resign'][idx % 4])]
     lo, hi = rng_of(tx)
     xs = list(range(lo, hi + 1))
     # against plain numbers on both sides: the other operand's values as numbers, plus values between grid points
@@ -22,6 +33,13 @@ def _c16_small(args):
     px = [x for x in xs for _ in nums]
     pn = [n for _ in xs for n in nums]
     out.append(x_misc.observe_cmp(fx, np, [pid], tx, px, nums=pn, side='right'))
+    out.append(x_misc.observe_cmp(fx, np, [pid], tx, px, nums=pn, side='right', hist=['view', 'inplace', 'elementwise'][idx % 3]))
+    # plain numbers carried by narrow NumPy dtypes (only values exactly representable in the dtype)
+    for numtype in ('int8', 'uint8', 'int16', 'float16', 'float32', 'int64'):
+        ok = [(x, n_) for x, n_ in zip(px, pn) if _fits(np, n_, numtype)]
+        if ok:
+            out.append(x_misc.observe_cmp(fx, np, [pid], tx, [a for a, _ in ok], nums=[b for _, b in ok], side='right', numtype=numtype))
+            out.append(x_misc.observe_cmp(fx, np, [pid], tx, [ok[idx % len(ok)][0]], nums=[ok[idx % len(ok)][1]], side='right', scalar=True, numtype=numtype))    # (a NumPy scalar on the LEFT goes through ufunc dispatch: not C16's plain number)
     for j, nv in enumerate(nums):
         if (j + idx) % 3 == 0 or tier == 'thorough':
             out.append(x_misc.observe_cmp(fx, np, [pid], tx, xs, nums=[nv] * len(xs), side='left'))
@@ -31,6 +49,7 @@ def _c16_small(args):
     if tx == ty or idx % 7 == 0:
         out.append(x_misc.observe_numconv(fx, np, [pid], tx, xs))
         out.append(x_misc.observe_numconv(fx, np, [pid], tx, xs, byvalue=True))
+        out.append(x_misc.observe_numconv(fx, np, [pid], tx, xs, hist=['inplace', 'view', 'elementwise'][idx % 3]))
     return _tag(out)
 
 
@@ -58,6 +77,10 @@ def _c16_wide(args):
         out.append(x_misc.observe_cmp(fx, np, [pid], tx, [cxs[3]], ty=ty, cys=[cys[3]], scalar=True))
         nums = [F(c) / F(2) ** ty[2] + rng.choice([0, 0, F(1, 2 ** 30), -F(1, 2 ** 30)]) for c in cys]
         out.append(x_misc.observe_cmp(fx, np, [pid], tx, cxs, nums=nums, side='right'))
+        ints = [F(rng.randint(-128, 127)) for _ in cxs]
+        out.append(x_misc.observe_cmp(fx, np, [pid], tx, cxs, nums=ints, side='right', numtype=rng.choice(['int8', 'int16', 'float16'])))
+        out.append(x_misc.observe_cmp(fx, np, [pid], tx, [cxs[0]], nums=[ints[0]], side='right', scalar=True, numtype=rng.choice(['int8', 'int16', 'float16'])))
+        out.append(x_misc.observe_cmp(fx, np, [pid], tx, cxs, ty=ty, cys=cys, hist=rng.choice(['inplace', 'view', 'elementwise', 'resign'])))
         out.append(x_misc.observe_cmp(fx, np, [pid], tx, cxs, nums=[nums[0]] * len(cxs), side='left'))
         t8 = _rand_fmt(rng, 8)
         l8, h8 = rng_of(t8)
